@@ -9,7 +9,7 @@ cp "$REPO/go.sum" harness/go.sum
 if [ "$REPO" != /repo ]; then (cd harness && go mod edit -replace go.brendoncarroll.net/p2p="$REPO"); fi
 mkdir -p harness/bin .work evidence replays
 ./harness/evilssh_src/gen.sh
-(cd harness && go build -tags verif -o bin/ ./cmd/...)
+(cd harness && go build -tags verif -o bin/ ./cmd/... && go1.26 build -tags verif -o bin/corr26 ./cmd/corr)
 mkdir -p lean/P2PVerif/Gen
 ./harness/bin/extract -repo "$REPO" > lean/P2PVerif/Gen/Facts.lean.new
 if ! cmp -s lean/P2PVerif/Gen/Facts.lean.new lean/P2PVerif/Gen/Facts.lean 2>/dev/null; then mv lean/P2PVerif/Gen/Facts.lean.new lean/P2PVerif/Gen/Facts.lean; else rm lean/P2PVerif/Gen/Facts.lean.new; fi
